@@ -16,8 +16,12 @@ PLUMBING_SUFFIX = (
 )
 
 
+AMOUNT_CONVERSION = re.compile(r"^crate::from::<impl core::convert::TryFrom<&?crate::Uint<BITS, LIMBS>> for usize>::try_from$")
+
+
 def is_plumbing(name):
-    return any(name.endswith(s) for s in PLUMBING_SUFFIX)
+    # the checked Uint -> usize conversion of a Uint-typed shift amount is argument plumbing
+    return any(name.endswith(s) for s in PLUMBING_SUFFIX) or bool(AMOUNT_CONVERSION.match(name))
 
 
 # The oracle: facade `Trait::method` -> delegate method names accepted besides the same name.
